@@ -252,6 +252,10 @@ func GenText(t *rapid.T, label string) string {
 	return s
 }
 
+// HugeVectors lets GenVector produce euclidean vectors whose squared distances overflow float32 (set by
+// the checks whose oracle handles infinite distances).
+var HugeVectors bool
+
 // GenVector draws a vector valid for the metric: unit length for cosine,
 // latitude/longitude for haversine, mostly 0/1 for the bit metrics, small grid
 // values (many ties) otherwise. Magnitudes stay far below float32 overflow.
@@ -269,6 +273,16 @@ func GenVector(t *rapid.T, label string, dim int, metric string) []float32 {
 	case models.DistanceHamming, models.DistanceJaccard:
 		for i := range v {
 			v[i] = rapid.SampledFrom([]float32{0, 1, 0, 1, 0.5, 0.75, -1, 0.25}).Draw(t, fmt.Sprintf("%s-%d", label, i))
+		}
+		return v
+	}
+	if HugeVectors && metric == models.DistanceEuclidean && rapid.IntRange(0, 11).Draw(t, label+"-huge") == 0 {
+		// coordinates so far apart that the squared distance leaves the float32 range (+Inf): still an
+		// ordinary distance, larger than every finite one
+		for i := range v {
+			// (the coordinates themselves stay far from the float32 limit, so that sums of coordinates - the
+			// mean a binary quantiser learns, k-means centroids - do not overflow)
+			v[i] = rapid.SampledFrom([]float32{0, 1, -1, 1e19, -1e19, 3e19, -3e19, 2e19, 1e25}).Draw(t, fmt.Sprintf("%s-h%d", label, i))
 		}
 		return v
 	}
